@@ -1,2 +1,141 @@
-/-! Line-protocol driver of the Conv model (stub). -/
-def main : IO Unit := pure ()
+import SoxrModel.Conv.Model
+/-! Line-protocol driver of the Conv model (`soxr_conv`): the same lines `harness/conv/conv.c` reads, the same canonical
+    lines out (see the header of that file for the protocol).
+
+      conv  <kernel> <n> <ch> <seed-hex> <flag> <hex bit patterns ...>
+      convr <kernel> <n> <ch> <seed-hex> <flag> <first-hex> <step-hex>     patterns first + k*step, output hashed (FNV-1a)
+-/
+namespace Soxr.Conv.Driver
+open Soxr.Conv
+
+def hexDigit (c : Char) : Nat :=
+  if '0' ≤ c ∧ c ≤ '9' then c.toNat - '0'.toNat
+  else if 'a' ≤ c ∧ c ≤ 'f' then c.toNat - 'a'.toNat + 10
+  else if 'A' ≤ c ∧ c ≤ 'F' then c.toNat - 'A'.toNat + 10
+  else 0
+
+def hexToNat (s : String) : Nat := s.foldl (fun acc c => acc * 16 + hexDigit c) 0
+
+def hexChar (d : Nat) : Char := if d < 10 then Char.ofNat (48 + d) else Char.ofNat (87 + d)
+
+/-- fixed-width lower-case hex. -/
+def toHex (width : Nat) (v : Nat) : String :=
+  let rec go : Nat → Nat → List Char → List Char
+    | 0, _, acc => acc
+    | k + 1, v, acc => go k (v / 16) (hexChar (v % 16) :: acc)
+  String.ofList (go width v [])
+
+/-- minimal-width hex (C's `%lx`). -/
+def toHexMin (v : Nat) : String := String.ofList (Nat.toDigits 16 v)
+
+def typeOfName (s : String) : Option DType :=
+  match s with
+  | "f32" => some .f32 | "f64" => some .f64 | "i32" => some .i32 | "i16" => some .i16 | _ => none
+
+def engOf (s : String) : Fmt := if s == "d" then f64 else f32
+def engType (e : Fmt) : DType := if e = f64 then .f64 else .f32
+
+def hexW (t : DType) : Nat := t.bits / 4
+
+def chunk {α : Type} (n : Nat) : Nat → List α → List (List α)
+  | 0, _ => []
+  | k + 1, xs => xs.take n :: chunk n k (xs.drop n)
+
+structure Out where
+  vals : List Nat
+  ty : DType
+  clips : Nat
+  seed : Nat
+  adv : Nat
+  flag : Bool
+
+def fnv (vals : List Nat) : UInt64 :=
+  vals.foldl (fun h v => (h ^^^ v.toUInt64) * 0x100000001b3) 0xcbf29ce484222325
+
+def tailStr (o : Out) : String :=
+  s!"| c={o.clips} s={toHexMin o.seed} p={o.adv} f={if o.flag then 1 else 0}"
+
+def render (o : Out) : String :=
+  String.join (o.vals.map fun v => toHex (hexW o.ty) v ++ " ") ++ tailStr o
+
+def renderHash (o : Out) : String :=
+  s!"h={toHexMin (fnv o.vals).toNat} " ++ tailStr o
+
+/-- runs one kernel on explicit patterns. -/
+def runKernel (kern : String) (n ch : Nat) (seed : Nat) (fl : Bool) (pats : List Nat) : Option Out :=
+  let parts := kern.splitOn "-"
+  match parts with
+  | "il" :: e :: o :: rest =>
+    (typeOfName o).map fun ot =>
+      let eng := engOf e
+      let chans := chunk n ch pats
+      let r := interleave eng ot chans n (rest.contains "dith") (BitVec.ofNat 64 seed) fl
+      { vals := r.out, ty := ot, clips := r.clips, seed := r.seed.toNat, adv := n * ch, flag := r.flag }
+  | ["de", e, i] =>
+    (typeOfName i).map fun it =>
+      let eng := engOf e
+      let outs := deinterleave eng it pats n ch
+      { vals := outs.flatten, ty := engType eng, clips := 0, seed := seed, adv := n * ch, flag := fl }
+  | ["lsr", "s2f"] => some { vals := pats.map fun b => lsrToFloat 15 (toSigned 16 b), ty := .f32, clips := 0, seed := seed, adv := n, flag := fl }
+  | ["lsr", "i2f"] => some { vals := pats.map fun b => lsrToFloat 31 (toSigned 32 b), ty := .f32, clips := 0, seed := seed, adv := n, flag := fl }
+  | ["lsr", "f2s"] =>
+    let rs := pats.map fun b => lsrToShort (f32.decode b)
+    some { vals := rs.map fun r => ofSigned 16 r.1, ty := .i16, clips := 0, seed := seed, adv := n, flag := fl || rs.any (·.2) }
+  | ["lsr", "f2i"] =>
+    let rs := pats.map fun b => lsrToInt (f32.decode b)
+    some { vals := rs.map fun r => ofSigned 32 r.1, ty := .i32, clips := 0, seed := seed, adv := n, flag := fl || rs.any (·.2) }
+  | "api" :: e :: i :: o :: _ =>
+    match typeOfName i, typeOfName o with
+    | some it, some ot =>
+      let eng := engOf e
+      let rs := pats.map (passSample eng it ot)
+      some { vals := rs.map (·.1), ty := ot, clips := (rs.filter (·.2)).length, seed := seed, adv := n, flag := fl }
+    | _, _ => none
+  | _ => none
+
+/-- input sample type of a kernel (for `convr`). -/
+def inType (kern : String) : DType :=
+  match kern.splitOn "-" with
+  | "il" :: e :: _ => engType (engOf e)
+  | ["de", _, i] => (typeOfName i).getD .f32
+  | ["lsr", "s2f"] => .i16
+  | ["lsr", "i2f"] => .i32
+  | "api" :: _ :: i :: _ => (typeOfName i).getD .f32
+  | _ => .f32
+
+def step (line : String) : Option String :=
+  let toks := (line.trimAscii.toString.splitOn " ").filter (· ≠ "")
+  match toks with
+  | "conv" :: kern :: n :: ch :: seed :: fl :: pats =>
+    let n := n.toNat?.getD 0
+    let ch := ch.toNat?.getD 1
+    match runKernel kern n ch (hexToNat seed) (fl == "1") (pats.map hexToNat) with
+    | some o => some (render o)
+    | none => some "ERR bad kernel"
+  | ["convr", kern, n, ch, seed, fl, first, stp] =>
+    let n := n.toNat?.getD 0
+    let ch := ch.toNat?.getD 1
+    let first := hexToNat first
+    let stp := hexToNat stp
+    let m := 2 ^ (inType kern).bits
+    let pats := (List.range (n * ch)).map fun k => (first + k * stp) % m
+    match runKernel kern n ch (hexToNat seed) (fl == "1") pats with
+    | some o => some (renderHash o)
+    | none => some "ERR bad kernel"
+  | [] => some ""
+  | _ => some "ERR unknown op"
+
+partial def loop (h : IO.FS.Stream) (out : IO.FS.Stream) : IO Unit := do
+  let line ← h.getLine
+  if line.isEmpty then return ()
+  match step line with
+  | some s => out.putStrLn s
+  | none => pure ()
+  loop h out
+
+end Soxr.Conv.Driver
+
+def main : IO Unit := do
+  let stdin ← IO.getStdin
+  let stdout ← IO.getStdout
+  Soxr.Conv.Driver.loop stdin stdout
